@@ -132,6 +132,11 @@ fn run_e1(rep: &Report) -> i32 {
         // match lists of about 2^16 entries in one state
         crate::e3::check_huge_match_lists(rep);
     }
+    if rep.property == "C04" || rep.property == "C03" {
+        // pattern ids beyond 2^15 / 2^16 (every automaton kind must agree with
+        // the expected list, hence with each other)
+        crate::e3::check_huge_id_space(rep);
+    }
     if rep.property == "C14" {
         // "occurs in the span": the span is whatever the caller stated
         // through Input, by any of its constructors / setters
